@@ -111,6 +111,13 @@ func CmdStart(cmd *exec.Cmd) error {
 	}
 	Yield("proc:start " + strings.Join(cmd.Args, " "))
 	parent := s.cur.Proc
+	if s.StartFailFn != nil {
+		if err := s.StartFailFn(parent, cmd); err != nil {
+			s.FaultsHit["proc:start:"+errName(err)]++
+			s.Logf("proc", "start by proc=%d fails: %v (injected)", parent.ID, err)
+			return &os.PathError{Op: "fork/exec", Path: cmd.Path, Err: err}
+		}
+	}
 	child := &Proc{ID: len(s.Procs), Name: parent.Name, Env: map[string]string{}, Parent: parent, Args: cmd.Args}
 	env := cmd.Env
 	if env == nil {
